@@ -9,6 +9,8 @@ from vlib.par import pmap
 PROPERTY = 'C01'
 LEVEL = 'other'
 TARGETS = [
+    ('xmledit', 'xml.XMLElementEdit.__init__'), ('xmledit', 'xml.XMLElementEdit.edits'),
+    ('editdistance_init', 'levenshtein.EditDistance.__init__'),
     ('core', 'edits.Match.__init__'), ('core', 'edits.Replace.__init__'), ('core', 'edits.Remove.__init__'),
     ('core', 'edits.Insert.__init__'),
     ('sequences', 'sequences.FixedLengthSequenceEdit.__init__'), ('sequences', 'sequences.FixedLengthSequenceEdit.edits'),
